@@ -1,10 +1,11 @@
 """C17 — batch processor: conservation, size bound, metadata isolation, timely flush."""
+import os
 import vlib
 
 
 class P(vlib.Prop):
     pid = "C17"
-    coq_dirs = ["Common", "C17"]
+    coq_dirs = ["Common", "C17", "Generated"]
     coq_targets = ["C17/Properties.vo", "C17/Witness.vo", "C17/Harness.vo"]
     properties_module = "C17.Properties"
     properties_file = "C17/Properties.v"
@@ -32,19 +33,25 @@ class P(vlib.Prop):
             "Shutdown right behind the last Consume: Start, 1-6 Consume calls (mostly first "
             "payloads of new metadata groups) and Shutdown in one goroutine without any wait, half of the runs on a single P; the "
             "sink snapshot taken the moment Shutdown returns is compared with the model and must conserve everything accepted.  "
-            "A split case is non-trivial when it cuts, a run when it exports >= 2 batches, a validate case when rejected; "
+            "Also: 30% of the runs with a failing downstream; producers blocked on a full channel (gate in the sink, k=1 "
+            "compared with Bounded.v, k=2-4 oracle only); Consume after Shutdown (model) and concurrent with Shutdown "
+            "(emitted + left in channels = accepted).  A split case is non-trivial when it cuts, a run when it exports >= 2 batches, a validate case when rejected; "
             "distinct = distinct case terms.")
     trusted_base = [
         "Coq 8.16.1 kernel + vm_compute (coqc); no axioms (Print Assumptions: closed under the global context)",
+        "translator T1 (tools/go2coq) for metricDPC, MetricType constants, itemCount, hasTimer, single-shard cardinality (coq/Generated/C17Batch.v)",
         "hand-written model coq/C17/Model.v of batch_processor.go, split{logs,traces,metrics}.go, Config.Validate, client.Metadata, tied to the code by the correspondence run on every check",
         "abstraction: Resource / Scope / item = opaque identity carried by an attribute; nil and empty value lists identified; attribute.Set equality = equality of the per-key value lists",
         "Go harness harness/C17/*.go + go test -overlay; Go toolchain; the harness fires a shard's time.Timer by Reset(1ns) when the shard is quiescent (logical time)",
     ]
     assumptions = [
         "one goroutine per shard owns batch and timer: each select branch (receive, timer, shutdown) is atomic w.r.t. the shard",
-        "a Consume call is one step (Load + locked section + channel send) or, for a stale Load miss, the locked section + send (label LConsumeStale); the newItem channel is modelled unbounded (a blocked producer has not been accepted yet)",
+        "a Consume call is one step (Load + locked section + channel send) or, for a stale Load miss, the locked section + send (label LConsumeStale); base model: unbounded channel; Bounded.v: capacity cap, blocked producers in FIFO order (Go's channel send queue), a receive lets the oldest waiter in",
         "the downstream consumer accepts every export (an error is only logged by the processor and the batch is dropped, by design)",
         "bp_timeout: time is logical; a timer fires exactly at its deadline (timely schedules); wall-clock accuracy of time.Timer and goroutine scheduling latency are outside",
         "Consume calls concurrent with or after Shutdown are outside the property ('accepted before shutdown began')",
         "Shutdown returns only after every shard created by an already returned Consume has returned (WaitGroup registration inside consume) - the hypothesis 'all shards done' of bp_conserves; validated by the immediate-shutdown runs",
     ]
+
+    def translate(self, ctx):
+        vlib.go2coq(ctx, "processor/batchprocessor", os.path.join(vlib.VERIF, "props", "C17", "t1_spec.json"), "C17Batch")
